@@ -220,7 +220,12 @@ func tryVariants(w *W, r *rand.Rand, tree *Node, withEvents bool) []tryVariant {
 func tryCall(w *W, tv tryVariant, b Binding, kind CallKind) Outcome {
 	tr := NewTracer()
 	tr.MaxStack = tv.v.MaxStack
-	o, _ := callExpr(tv.v.E, kind, fetcherFor(b, nil), tr, tv.events)
+	f := fetcherFor(b, nil)
+	if kind == CallTryEval && b.Avail != nil && w.Evals%3 == 0 {
+		f.MarkerDNE = true
+		w.Inc("unavailable_marked_by_dne_value")
+	}
+	o, _ := callExpr(tv.v.E, kind, f, tr, tv.events)
 	w.Evals++
 	if tr.Bad != "" {
 		w.Fail("step-monitor/"+stepSig(tr.Bad), "%s\n%s", tr.Bad, describeCase(tv.v.Src, tv.v.Cfg, b))
